@@ -88,6 +88,60 @@ impl Probe for GraphProbe {
         for r in 0..sc.nrep {
             check_replica_graph(sc, hist, &w, r, cx);
         }
+        // a commit whose block write fails creates no block: heads unchanged; the retry's parents are the
+        // heads from before the failed attempt
+        for r in 0..sc.nrep {
+            if !has_staging(&w.reps[r].m) {
+                continue;
+            }
+            let heads_before = anchors_of(&w.reps[r].m);
+            // count the writes of an undisturbed commit
+            let mut w1 = sc.build(hist);
+            w1.reps[r].store.arm(BTreeSet::new());
+            if !w1.apply(&Op::Commit(r, 1)).is_ok() {
+                continue;
+            }
+            let nwrites = w1.reps[r].store.take_log().len();
+            for k in 0..nwrites {
+                let mut w2 = sc.build(hist);
+                w2.reps[r].store.arm(BTreeSet::from([k]));
+                let o = w2.apply(&Op::Commit(r, 1));
+                w2.reps[r].store.take_log();
+                if !matches!(o, OpOut::Err(_)) {
+                    continue;
+                }
+                cx.count("failed_commit_checks");
+                w2.focus();
+                let heads_after_failure = anchors_of(&w2.reps[r].m);
+                let mut h = hist.to_vec();
+                h.push(Op::Commit(r, 1));
+                if heads_after_failure != heads_before {
+                    cx.violation("C13", "C13:failed-commit-moved-the-heads", sc, &h, json!({"replica": r, "failed_write": k, "heads_before": heads_before, "heads_after_failed_commit": heads_after_failure}));
+                    return;
+                }
+                check_replica_graph(sc, &h, &w2, r, cx);
+                w2.reps[r].store.arm(BTreeSet::new());
+                let o2 = w2.apply(&Op::Commit(r, 1));
+                w2.reps[r].store.take_log();
+                if let OpOut::Ok(id) = &o2 {
+                    if id != "none" {
+                        h.push(Op::Commit(r, 1));
+                        let store = w2.reps[r].store.snapshot();
+                        if let Some(b) = store.get(&format!("{}.delta", id)).and_then(|raw| refmodel::parse_block(&format!("{}.delta", id), raw)) {
+                            let parents: BTreeSet<String> = b.parents.iter().cloned().collect();
+                            if parents != heads_before {
+                                cx.violation("C13", "C13:retried-commit-has-wrong-parents", sc, &h, json!({"replica": r, "failed_write": k, "parents": parents, "heads_before_the_failed_attempt": heads_before}));
+                                return;
+                            }
+                        } else {
+                            cx.violation("C13", "C13:committed-block-invalid-by-reference", sc, &h, json!({"replica": r, "block": id}));
+                            return;
+                        }
+                        check_replica_graph(sc, &h, &w2, r, cx);
+                    }
+                }
+            }
+        }
     }
     fn on_transition(&self, sc: &Scenario, hist: &[Op], op: &Op, pre: &World, out: &OpOut, post: &World, cx: &mut Cx) {
         let (Op::Commit(r, i), OpOut::Ok(ret)) = (op, out) else { return };
